@@ -21,12 +21,44 @@ def ensure_driver():
         raise DriverError("mvdrv build failed:\n" + out[-4000:])
 
 
+def private_driver():
+    """copy the freshly built mvdrv to a private temp file (other builds may relink the shared binary while a
+    check is running); the path is exported so that forked workers use it; removed at exit of the parent"""
+    import shutil, atexit
+    cur = os.environ.get("MVDRV_PRIVATE")
+    if cur and os.path.exists(cur):
+        return cur
+    fd, path = tempfile.mkstemp(prefix="mvdrv_", dir=os.environ.get("TMPDIR", "/tmp"))
+    os.close(fd)
+    for _ in range(20):
+        try:
+            shutil.copy2(MVDRV, path)
+            break
+        except (FileNotFoundError, OSError):
+            time.sleep(0.5)
+    os.chmod(path, 0o755)
+    os.environ["MVDRV_PRIVATE"] = path
+    pid = os.getpid()
+
+    def _rm():
+        if os.getpid() == pid:
+            try:
+                os.remove(path)
+            except OSError:
+                pass
+    atexit.register(_rm)
+    return path
+
+
 def run_driver(lines, timeout=600):
     """send request lines, return reply lines (same length)"""
     if not lines:
         return []
     data = "\n".join(lines) + "\n"
-    p = subprocess.run([MVDRV], input=data, stdout=subprocess.PIPE, stderr=subprocess.PIPE,
+    exe = os.environ.get("MVDRV_PRIVATE")
+    if not exe or not os.path.exists(exe):
+        exe = MVDRV
+    p = subprocess.run([exe], input=data, stdout=subprocess.PIPE, stderr=subprocess.PIPE,
                        text=True, timeout=timeout)
     if p.returncode != 0:
         raise DriverError("mvdrv exited %d: %s" % (p.returncode, p.stderr[-2000:]))
